@@ -8,6 +8,7 @@ package vrt
 
 import (
 	"fmt"
+	"os"
 	"hash/fnv"
 	"runtime"
 	"runtime/debug"
@@ -366,6 +367,7 @@ func (e *Exec) loop() {
 			break
 		}
 		e.steps++
+		progress++
 		if e.steps > e.horizon {
 			e.HorizonHit = true
 			break
@@ -530,6 +532,7 @@ func RunOnce(opt Options, prefix []int, body func(), states map[uint64]struct{})
 	for _, n := range opt.TouchOn {
 		e.touchOn[n] = true
 	}
+	startWatchdog()
 	cx = e
 	e.spawn("main", body)
 	e.loop()
@@ -745,4 +748,41 @@ func WithExec(e *Exec, f func()) {
 	cx = e
 	defer func() { cx = nil }()
 	f()
+}
+
+// watchdog: a managed thread that blocks outside the virtual runtime (a real mutex,
+// a real channel, real I/O) would hang the explorer silently; turn that into a loud
+// machinery failure instead.
+var progress uint64
+var watchOnce bool
+
+func startWatchdog() {
+	if watchOnce {
+		return
+	}
+	watchOnce = true
+	go func() {
+		var last uint64
+		idle := 0
+		for {
+			time.Sleep(5 * time.Second)
+			if cx == nil {
+				idle = 0
+				continue
+			}
+			p := progress
+			if p == last {
+				idle++
+			} else {
+				idle = 0
+			}
+			last = p
+			if idle >= 12 {
+				buf := make([]byte, 1<<20)
+				n := runtime.Stack(buf, true)
+				fmt.Fprintf(os.Stderr, "vrt: no scheduling progress for 60s: a thread is blocked outside the virtual runtime\n%s\n", buf[:n])
+				os.Exit(3)
+			}
+		}
+	}()
 }
